@@ -1126,9 +1126,10 @@ Definition outcome (r : result schema) : list Z :=
   | PyExn e => [2; d_exn e]
   end.
 
-(* the dump is compared through a polynomial hash (keeps the Coq literals of the correspondence run small) *)
+(* the dump is compared through a polynomial hash modulo 2^61 (keeps the Coq literals of the correspondence
+   run small); Z.land and Python's & agree on negative arguments as well (two's complement) *)
 Definition zhash (l : list Z) : Z :=
-  fold_left (fun h x => (h * 1000003 + x + 7) mod 2305843009213693951) l 0.
+  fold_left (fun h x => Z.land (h * 1000003 + x + 7) 2305843009213693951) l 0.
 Definition outcome_h (r : result schema) : list Z :=
   match r with
   | Ok s => let d := dump s in [0; Z.of_nat (List.length d); zhash d]
